@@ -9,6 +9,7 @@ Outgoing headers (channel id, consecutive packet numbers) are C01's `stamp` theo
 -/
 import Dblib.Model.Mux
 import Dblib.Props.C12.Transmit
+import Dblib.Props.C12.Dynamic
 
 namespace Dblib.Props.C12
 open Dblib.Mux Dblib.Gen.Shape
